@@ -299,11 +299,11 @@ def newControllerRevision (c : Cfg) (parent patch : J) (name : String) : Except 
   pure (.obj [("apiVersion", .str "metacontroller.k8s.io/v1alpha1"), ("kind", .str "ControllerRevision"), ("metadata", .obj md), ("parentPatch", patch)])
 
 /-- hook calls for all parent revisions; all are made, the first error (in list order) is reported -/
-def callHooks (c : Cfg) (latestParent : J) (observed : ObjMap) : List (J × J × List CGroup) → Prog (List (Except Err PRev))
+def callHooks (c : Cfg) (latestParent : J) (observed related : ObjMap) : List (J × J × List CGroup) → Prog (List (Except Err PRev))
   | [] => pure []
   | (p, rev, ch) :: rest => do
-      let r ← callHookComposite c p observed []
-      let rs ← callHooks c latestParent observed rest
+      let r ← callHookComposite c p observed related
+      let rs ← callHooks c latestParent observed related rest
       let x : Except Err PRev := match r with
         | .ok resp => .ok { parent := p, revision := rev, children := ch, resp,
                             desired := (resp.children.filterMap id).foldl (fun acc o => acc.insertRelative (getNamespace latestParent) o) [] }
@@ -357,9 +357,9 @@ def replaceIfExists (m : ObjMap) (parentNs : String) (o : J) : ObjMap :=
   m.map (fun g => if g.1 == k && (g.2.lookup name).isSome then (g.1, putName name o g.2) else g)
 
 /-- `syncRevisions`: the aggregated hook result, or `none` when… (always some: a sync hook exists) -/
-def syncRevisions (c : Cfg) (cache : Cache) (parent : J) (observed : ObjMap) (newRevName : String) : PE CompResp := do
+def syncRevisions (c : Cfg) (cache : Cache) (parent : J) (observed related : ObjMap) (newRevName : String) : PE CompResp := do
   if !c.anyRolling || (isDeleting parent && !c.finalizer.shouldFinalize parent) then
-    callHookComposite c parent observed []
+    callHookComposite c parent observed related
   else
   let observedRevs ← claimRevisions c cache parent
   let fps := c.effectiveFieldPaths
@@ -377,7 +377,7 @@ def syncRevisions (c : Cfg) (cache : Cache) (parent : J) (observed : ObjMap) (ne
     | some r => pure r
     | none => PE.ofExcept (newControllerRevision c parent latestPatch newRevName)
   let inputs := (parent, latestRevObj, (revChildren latestRevObj).getD []) :: others
-  let results ← PE.lift (callHooks c parent observed inputs)
+  let results ← PE.lift (callHooks c parent observed related inputs)
   let prs ← match results.findSome? (fun r => match r with | .error e => some e | .ok _ => none) with
     | some e => PE.throw e
     | none => pure (results.filterMap (fun r => match r with | .ok p => some p | .error _ => none))
@@ -399,33 +399,5 @@ def syncRevisions (c : Cfg) (cache : Cache) (parent : J) (observed : ObjMap) (ne
   let resync := resyncs.foldl (fun acc x => if acc == 0 || x < acc then x else acc) 0
   pure { status := some status, children := desired.list.map some, resyncAfter := resync,
          finalized := pruned.all (·.resp.finalized) }
-
-/-- `syncParentObject`, complete (rolling or not) -/
-def syncParentObjectFull (c : Cfg) (cache : Cache) (parent : J) (newRevName : String) : Prog SyncRes := do
-  if c.ignored parent then pure ([], .ok ())
-  else
-  let r ← c.finalizer.syncObject (c.parentTarget parent) parent
-  match r with
-  | .error e => pure ([], .error (.fail s!"can't sync finalizer: {e}"))
-  | .ok parent =>
-    if c.ignored parent then pure ([], .ok ())
-    else do
-      let observed ← claimChildren c cache parent
-      match observed with
-      | .error e => pure ([], .error e)
-      | .ok observed =>
-        let resp ← syncRevisions c cache parent observed newRevName
-        match resp with
-        | .error e => pure ([], .error e)
-        | .ok resp =>
-          let t ← compositeTail c parent observed resp
-          pure (resyncOps resp, t)
-
-def syncCompositeFull (c : Cfg) (cache : Cache) (ns name newRevName : String) : Prog Final :=
-  match cache.parents.find? (fun p => getNamespace p == ns && getName p == name) with
-  | none => pure { outcome := .ok, after := [] }
-  | some parent => do
-    let r ← syncParentObjectFull c cache parent newRevName
-    pure (finalOf r)
 
 end Mc
